@@ -92,14 +92,23 @@ def run_spec(arg):
     def run():
         return bb.loads(text)
 
-    with U.coverage(out["funcs"]):
-        try:
-            paths = E.explore(run)
-        except engine.PathLimit as e:
-            out["result"] = "inconclusive"
-            out["why"] = str(e)
-            out["stats"] = E.stats
-            return out
+    if g.get("order"):
+        from ..pysym import order
+        order.install()
+        order.SITES.clear()
+    try:
+        with U.coverage(out["funcs"]):
+            try:
+                paths = E.explore(run)
+            except engine.PathLimit as e:
+                out["result"] = "inconclusive"
+                out["why"] = str(e)
+                out["stats"] = E.stats
+                return out
+    finally:
+        if g.get("order"):
+            order.deactivate()
+            out["order_sites"] = dict(order.SITES)
     out["paths"] = len(paths)
     out["refcases"] = len(cases)
     conc = lambda vals: concrete_check(mod, spec, vals, w)  # noqa
